@@ -430,7 +430,11 @@ import array as _array
 import queue as _queue
 
 
-def _mk(m, kind):
+class _ProxyReturningCallFailed(Exception):
+    pass
+
+
+def _mk(m, kind, transferred=False):
     """(proxy, local twin, table of operations: name -> (call on proxy, call on twin))"""
     if kind == 0:
         p, t = m.Namespace(), bm.Namespace()
@@ -464,7 +468,13 @@ def _mk(m, kind):
         # the registered 'Iterator' type: what a method listed in method_to_typeid (PoolProxy.imap ...) hands back - a proxy of a
         # generator living in the server; next / send / close through it behave like the generator itself
         src = m.vp_gen()
-        p, t = src.items(), _Gen().items()
+        if transferred:
+            # the proxy the call is made through has been transferred (pickled to another process / thread): a copy without its manager
+            src = bm.RebuildProxy(type(src), src._token, 'verif', {'authkey': b'k'})
+        try:
+            p, t = src.items(), _Gen().items()
+        except AttributeError:
+            raise _ProxyReturningCallFailed()
         ops = [lambda o, x: next(o), lambda o, x: o.send(None), lambda o, x: o.close(), lambda o, x: iter(o) is o]
         state = lambda o: None
     return p, t, ops, state
@@ -493,7 +503,13 @@ def _types(code, want):
     with untraced():
         bm.SyncManager.register('vp_gen', callable=_Gen, exposed=('items',), method_to_typeid={'items': 'Iterator'})
         m, srv = setup()
-        p, t, ops, state = _mk(m, kind)
+    transferred = kind == 7 and nd.flag()
+    with untraced():
+        try:
+            p, t, ops, state = _mk(m, kind, transferred)
+        except _ProxyReturningCallFailed:
+            # a method whose result comes back as a new proxy (method_to_typeid), called through a transferred proxy
+            return fail('C20:call:proxy-raises-where-the-local-object-does-not:proxy-returning-method-through-a-transferred-proxy')
     raised = False
     for step in range(KT):
         op = ops[nd.draw(0, len(ops) - 1)]
